@@ -34,7 +34,22 @@ def gen_engine_case(rng, tier, **kw):
     obs = []
     for _ in range(rng.choice([0, 0, 1, 2])):
         obs.append({"on": rng.choice(["all", "all", "rule", "datasource", "parser", "combiner"]), "raises": rng.random() < 0.5})
-    return {"graph": g, "entry": entry, "store_skips": rng.random() < 0.5, "observers": obs}
+    case = {"graph": g, "entry": entry, "store_skips": rng.random() < 0.5, "observers": obs}
+    # a second evaluation after implementations were registered late for existing registry points (what loading
+    # another spec module does): same component set, new edges
+    if entry["form"] in ("all", "target", "list", "set", "incremental_shared") and rng.random() < 0.5:
+        late = []
+        for i, nd in enumerate(g["nodes"]):
+            if nd["kind"] == "point" and rng.random() < 0.7:
+                cands = [j for j in range(i) if g["nodes"][j]["kind"] == "datasource" and g["nodes"][j]["part"] == nd["part"]
+                         and not g["nodes"][j].get("implements") and j not in [x[1] for x in late]]
+                if cands:
+                    late.append([i, rng.choice(cands)])
+        if late:
+            case["late_impls"] = late
+    if rng.random() < 0.3:
+        case["none_seeds"] = True          # pre-seeded values that are None
+    return case
 
 
 class Run(object):
@@ -54,15 +69,29 @@ def closure(spec, roots):
     return seen
 
 
-def execute(case, sleep=None):
+def second_phase(r1):
+    """register the late implementations of the case on the built graph and evaluate again (fresh broker)"""
+    import copy
+    case = r1.case
+    b = r1.built
+    spec = copy.deepcopy(r1.spec)
+    for k, (i, j) in enumerate(case["late_impls"]):
+        type("L_%s_%d_%d" % (b.tag, i, k), (b.specset,), {"__module__": b.modname, "n%d" % i: b.comps[j]})
+        spec["nodes"][i]["impls"].append(j)
+        spec["nodes"][j]["kind"] = "impl"
+        spec["nodes"][j]["implements"] = True
+    return execute(case, built=b, spec=spec)
+
+
+def execute(case, sleep=None, built=None, spec=None):
     """Build and run; returns a Run with everything the oracles need."""
-    spec = case["graph"]
+    spec = spec or case["graph"]
     entry = case["entry"]
     form = entry["form"]
     nodes = spec["nodes"]
     n = len(nodes)
     group = ("grp_%s" % spec.get("tag", "x")) if form == "group" else None
-    b = G.build(spec, group=group)
+    b = built or G.build(spec, group=group)
     b.sleep[0] = sleep
     r = Run()
     r.case, r.spec, r.built = case, spec, b
@@ -107,7 +136,7 @@ def execute(case, sleep=None):
         if shared:
             for i, nd in enumerate(nodes):
                 if nd.get("seeded"):
-                    obj = ("seed", i)
+                    obj = None if (case.get("none_seeds") and i % 2 == 0) else ("seed", i)
                     r.seeds[i] = obj
                     broker[comps[i]] = obj
         r.observer_log = []
